@@ -189,6 +189,36 @@ DEFOP(build_wide) {
     w.log.add("build_wide n " + I(n) + " kind " + I(kind) + " -> s" + I(slot));
 }
 
+DEFOP(build_big) {
+    // few but very large values: strings of hundreds of KiB to a few MiB (the print buffer has to grow past the megabyte,
+    // a single reservation can be larger than everything printed so far)
+    int slot = w.free_slot();
+    if (slot < 0) { w.noop(st, "no free slot"); return; }
+    static const size_t sizes[] = {300u << 10, 600u << 10, 1200u << 10, 2560u << 10, 70000, 1u << 20, (1u << 20) + 1};
+    Rng r((uint64_t)st.A(0));
+    int n = 1 + (int)r.below(3);
+    bool obj = st.A(1) & 1;
+    cJSON *root = obj ? cJSON_CreateObject() : cJSON_CreateArray();
+    MVal *m = mv_new(obj ? T_OBJECT : T_ARRAY);
+    if (!root) { mv_free(m); w.noop(st, "alloc"); return; }
+    for (int i = 0; i < n; i++) {
+        size_t len = sizes[r.below(7)];
+        std::string s(len, 'x');
+        for (size_t k = 0; k < len; k += 97) s[k] = (char)('a' + (k / 97) % 26);
+        if (r.chance(1, 3)) s[len / 2] = '"';   // one byte that needs an escape
+        cJSON *c = cJSON_CreateString(s.c_str());
+        if (!c) break;
+        MVal *k = mv_str(s);
+        if (obj) { std::string key = "big" + std::to_string(i); if (!cJSON_AddItemToObject(root, key.c_str(), c)) { cJSON_Delete(c); mv_free(k); break; } k->keystate = K_KNOWN; k->key = key; }
+        else if (!cJSON_AddItemToArray(root, c)) { cJSON_Delete(c); mv_free(k); break; }
+        mv_add_kid(m, k, m->kids.size());
+    }
+    m->c = root;
+    w.slots[slot] = m;
+    w.stats.probes["big_tree_built"]++;
+    w.log.add("build_big n " + I((int64_t)m->kids.size()) + " -> s" + I(slot));
+}
+
 // ------------------------------------------------------------------ C04: print -> parse round trip and fixed point
 static bool print_all(World &w, MVal *x, int64_t parg, std::string &F, std::string &U, std::string &err) {
     char *f = cJSON_Print(x->c);
@@ -211,6 +241,20 @@ static bool print_all(World &w, MVal *x, int64_t parg, std::string &F, std::stri
             if ((fmt ? F : U) != b) { err = "PrintBuffered(prebuffer " + I(p) + ", fmt " + I(fmt) + ") differs from Print" + (fmt ? "" : "Unformatted") + ": '" + show_bytes(b, 80) + "' vs '" + show_bytes(fmt ? F : U, 80) + "'"; return false; }
             w.stats.fault_counts["cfg_prebuffer"]++;
         }
+    }
+    if (pr.chance(1, 6) && F.size() <= 800) {
+        // the initial buffer size ENUMERATED: with p = 0 .. length every reservation site of the printer is, for some p, the one
+        // that has to grow the buffer first
+        for (int fmt = 0; fmt < 2; fmt++) {
+            const std::string &T = fmt ? F : U;
+            for (int p = 0; p <= (int)T.size() + 1; p++) {
+                char *b = cJSON_PrintBuffered(x->c, p, fmt);
+                TextGuard gb(b);
+                if (!b) { err = "PrintBuffered(prebuffer " + I(p) + ", fmt " + I(fmt) + ") returned NULL"; return false; }
+                if (T != b) { err = "PrintBuffered(prebuffer " + I(p) + ", fmt " + I(fmt) + ") differs from Print" + (fmt ? "" : "Unformatted") + ": '" + show_bytes(b, 80) + "' vs '" + show_bytes(T, 80) + "'"; return false; }
+            }
+        }
+        w.stats.probes["prebuffer_enumerated"]++;
     }
     for (int fmt = 0; fmt < 2; fmt++) {
         const std::string &T = fmt ? F : U;
